@@ -18,7 +18,7 @@ import (
 func init() {
 	register(&Check{
 		ID:   "C15",
-		Rule: "case = (nesting shape, reader type, known-prefix length): messages for the recursive zoo type Node are synthesised byte by byte with exactly d nesting levels (levels = nested struct/list/set/map values) for every d in {1..70, 96..1120 step 32, bound-2..bound+2, 2048, 10^4, 10^5, 10^6} (thorough: every d<=2048); shapes: struct->struct, ->list->struct, ->set->struct, ->map value, ->map key, list/map of by-value structs, wide lists (2/40/1022/1500 elements, the last one nesting on), seeded mixtures; readers: Node (known position), NodeOld (skipped, no holder), NodeU (skipped into a holder), unknown field id, a known id sent with another wire type, ReqNode (recursion through a required list with a required field after it), LongName (Node under a 60-character type name: per-level error context grows with it). Oracle: d<=48 accepted; d>decoder bound (exported by the hook, 1023) rejected with ProtocolException DEPTH_LIMIT; in between only those two outcomes and one threshold per case (monotone); child stack capped at 256 MiB. distinct = distinct (shape, reader, prefix); non-trivial = both an accepted and a rejected depth were observed",
+		Rule: "case = (nesting shape, reader type, known-prefix length): messages for the recursive zoo type Node are synthesised byte by byte with exactly d nesting levels (levels = nested struct/list/set/map values) for every d in {1..70, 96..1120 step 32, bound-2..bound+2, 2048, 10^4, 10^5, 10^6} (thorough: every d<=2048); shapes: struct->struct, ->list->struct, ->set->struct, ->map value (also with a sibling entry after the nesting one), ->map key, list/map of by-value structs, wide lists (2/40/1022/1500 elements, the last one nesting on), seeded mixtures; readers: Node (known position), NodeOld (skipped, no holder), NodeU (skipped into a holder), unknown field id, a known id sent with another wire type, ReqNode (recursion through a required list with a required field after it), LongName (Node under a 60-character type name: per-level error context grows with it). Oracle: d<=48 accepted; d>decoder bound (exported by the hook, 1023) rejected with ProtocolException DEPTH_LIMIT; in between only those two outcomes and one threshold per case (monotone); child stack capped at 256 MiB. distinct = distinct (shape, reader, prefix); non-trivial = both an accepted and a rejected depth were observed",
 		Plan: func(tier string) []BuildPlan {
 			if tier == "thorough" {
 				return []BuildPlan{{"plain", c15Cases()}, {"checkptr", c15Cases()}, {"asan", c15Cases() / 3}}
@@ -30,7 +30,7 @@ func init() {
 	})
 }
 
-var c15Steps = []string{"next", "kids", "kset", "byval", "bykey", "vals", "mval", "kidsW", "valsW"}
+var c15Steps = []string{"next", "kids", "kset", "byval", "bykey", "vals", "mval", "kidsW", "valsW", "byval2", "mval2"}
 var c15Readers = []string{"Node", "NodeOld", "NodeU", "unknown-id", "ReqNode", "retyped-id", "LongName"}
 
 // c15Width is the element count of the wide list steps ("kidsW", "valsW"): the
@@ -87,6 +87,13 @@ func deepMessageW(steps []string, width int) []byte {
 		case "bykey":
 			b = append(b, 0x0d, 0, 6, 0x0c, 0x03, 0, 0, 0, 1)
 			closers = append(closers, []byte{9}) // the i8 value follows the key struct
+		case "byval2":
+			// two entries: the one that nests on comes first, an empty sibling follows it
+			b = append(b, 0x0d, 0, 5, 0x08, 0x0c, 0, 0, 0, 2, 0, 0, 0, 7)
+			closers = append(closers, []byte{0, 0, 0, 9, 0})
+		case "mval2":
+			b = append(b, 0x0d, 0, 8, 0x0b, 0x0c, 0, 0, 0, 2, 0, 0, 0, 1, 'k')
+			closers = append(closers, []byte{0, 0, 0, 1, 'z', 0})
 		case "vals":
 			b = append(b, 0x0f, 0, 7, 0x0c, 0, 0, 0, 1)
 			closers = append(closers, nil)
